@@ -78,7 +78,8 @@ def param_rows(lang):
         "B1out": (lambda T, n: [P(n, "bool *" + n, "+intent(out)", "B1out", "bool", lua=False)], ["bool"]),
         "B1inout": (lambda T, n: [P(n, "bool *" + n, "+intent(inout)", "B1inout", "bool", lua=False)], ["bool"]),
         # declarations.rst "Char"; strings.yaml passCharPtr, clibrary.yaml
-        "S1in": (lambda T, n: [P(n, "const char *" + n, "", "S1in", "char")], ["char"]),
+        # (the Lua wrapper emits no declaration for const char * arguments; the corpus only uses std::string there)
+        "S1in": (lambda T, n: [P(n, "const char *" + n, "", "S1in", "char", lua=False)], ["char"]),
         "S1out": (lambda T, n: [P(n, "char *" + n, "+intent(out)+charlen(20)", "S1out", "char", lua=False)], ["char"]),
         "S1inout": (lambda T, n: [P(n, "char *" + n, "+intent(inout)", "S1inout", "char", lua=False, py=False)], ["char"]),
         "S1c": (lambda T, n: [P(n, "char " + n, "", "S1c", "char", lua=False)], ["char"]),
@@ -109,8 +110,8 @@ def result_rows(lang):
         "RN": ("{T}", "", NATIVES, True, True),       # "Numeric Functions"
         "RB": ("bool", "", [None], True, True),
         "RC": ("char", "", [None], True, False),      # strings.yaml returnChar
-        "RS1": ("const char *", "", [None], True, True),   # getCharPtr1
-        "RS1len": ("const char *", "+len(30)", [None], True, True),  # getCharPtr2
+        "RS1": ("const char *", "", [None], True, False),   # getCharPtr1 (wrap_lua: False in strings.yaml)
+        "RS1len": ("const char *", "+len(30)", [None], True, False),  # getCharPtr2
         "RNptrdim": ("{T} *", "+dimension(3)", ARRAY_T, False, False),  # returnIntPtrToFixedArray
         "RNptrscalar": ("{T} *", "+deref(scalar)", ARRAY_T, True, False),  # returnIntScalar
     }
@@ -150,6 +151,10 @@ def function(draw, lang, names, prefix="fn", cls=None, allow=None, max_params=3,
     T = draw(st.sampled_from(pool))
     rtype = tmpl.format(T=T)
     name = names.fresh(draw(st.sampled_from(_SNAKE + _WORDS)) if prefix is None else prefix)
+    if rk in ("RS3ref", "RS3len") and any(p["row"] in ("B1out", "B1inout", "N3in", "N3inout", "N3out", "V1in", "V1out")
+                                           for p in params):
+        # recorded known finding (C03): a reference result in a Python wrapper that needs a cleanup label
+        rpy = False
     f = dict(kind="func", name=name, rtype=rtype, rattrs=rattrs, rrow=rk, rT=T, params=params,
              py=rpy and all(p["py"] for p in params), lua=rlua and all(p["lua"] for p in params),
              const=False, static=False, options={}, format={}, extra={})
@@ -262,7 +267,8 @@ def library(draw, lang=None, max_decls=8, with_python=None, with_lua=None, featu
         elif k == "class":
             lib["decls"].append(draw(class_decl(lang, names)))
         elif k == "enum":
-            lib["decls"].append(draw(enum_decl(names, scoped_ok=(lang == "c++"))))
+            # (scoped enumerations are not used with the Python wrapper in docs or corpus)
+            lib["decls"].append(draw(enum_decl(names, scoped_ok=(lang == "c++" and not wp))))
         elif k == "struct":
             lib["decls"].append(draw(struct_decl(names)))
         elif k == "namespace":
@@ -346,6 +352,10 @@ def _decl_yaml(node, lib):
         return _func_yaml(node, lib)
     if k == "enum":
         d = {"decl": enum_text(node)}
+        if node.get("scoped") and lib["options"].get("wrap_python"):
+            # scoped enumerations are not used with the Python wrapper anywhere in docs or corpus
+            # (scope.yaml keeps wrap_python off): not an admitted pattern for Python
+            node = dict(node, options=dict(node.get("options") or {}, wrap_python=False))
     elif k == "struct":
         d = {"decl": struct_text(node)}
     elif k == "class":
@@ -442,3 +452,51 @@ def sample_libraries(seed_value, n, **kw):
 
 def sample_models(seed_value, n, **kw):
     return sample(library(**kw), seed_value, n)
+
+
+# ---------------------------------------------------------------------------
+# header of a model: the declarations with the Shroud attributes removed
+
+def header(lib):
+    cxx = lib["language"] == "c++"
+    out = ["#ifndef VF_SG_H", "#define VF_SG_H", "#include <stddef.h>", "#include <stdint.h>"]
+    out += ["#include <string>", "#include <vector>"] if cxx else ["#include <stdbool.h>"]
+
+    def func_proto(f):
+        s = decl_text(f, with_attrs=False)
+        if f.get("template"):
+            s = f["template"] + " " + s
+        return s + ";"
+
+    def emit(nodes, indent):
+        for n in nodes:
+            k = n["kind"]
+            if k == "func":
+                out.append(indent + func_proto(n))
+            elif k == "enum":
+                out.append(indent + enum_text(n))
+            elif k == "struct":
+                out.append(indent + struct_text(n))
+            elif k == "class":
+                out.append(indent + "class %s {\n%spublic:" % (n["name"], indent))
+                for c in n["ctors"]:
+                    out.append(indent + "    %s(%s);" % (n["name"], ", ".join(
+                        p["ctype"] + ((" = " + p["default"]) if p.get("default") is not None else "") for p in c["params"])))
+                if n["dtor"]:
+                    out.append(indent + "    ~%s();" % n["name"])
+                for m in n["methods"]:
+                    out.append(indent + "    " + func_proto(m))
+                out.append(indent + "};")
+            elif k == "namespace":
+                out.append(indent + "namespace %s {" % n["name"])
+                emit(n["decls"], indent + "  ")
+                out.append(indent + "}")
+            elif k == "block":
+                emit(n["decls"], indent)
+    if lib.get("namespace"):
+        out.append("namespace %s {" % lib["namespace"])
+    emit(lib["decls"], "")
+    if lib.get("namespace"):
+        out.append("}")
+    out.append("#endif")
+    return "\n".join(out) + "\n"
